@@ -4,8 +4,9 @@ use crate::core::World;
 pub mod base64;
 pub mod decode;
 pub mod queue;
+pub mod render;
 pub mod tty;
 
 pub fn all() -> Vec<World> {
-    vec![base64::world(), queue::world(), decode::world(), tty::world()]
+    vec![base64::world(), queue::world(), decode::world(), tty::world(), render::world()]
 }
